@@ -254,6 +254,7 @@ static int replay(const char *key) {
     return 0;
 }
 static int worker(int argc, char **argv) {
+    vc_dirty_bytes = 2048;   /* leaf routines with small frames; millions of cases */
     if (anchors()) return 1;
     if (vc_replay_key) return replay(vc_replay_key);
     if (!strcmp(argv[1], "small")) run_small(atoi(argv[2]), atoi(argv[3]), atoi(argv[4]));
